@@ -39,6 +39,7 @@ props! {
     "C09" => c09,
     "C11" => c11,
     "C12" => c12,
+    "C13" => c13,
     "C14" => c14,
     "C15" => c15,
     "C16" => c16,
@@ -55,6 +56,7 @@ props! {
     "C28" => c28,
     "C29" => c29,
     "C30" => c30,
+    "C31" => c31,
     "C32" => c32,
     "C33" => c33,
     "C34" => c34,
